@@ -1248,6 +1248,24 @@ impl Property for C19 {
                 sc.ops.insert(at, GitOp::CpUpdate { id: None, raw_id: None, pending: true });
                 sc.ops.insert(at, GitOp::Bulk { dir, n: 1500 + brng.below(900), tag: 20000 });
             }
+            // one `update --pending` in three records a fresh untracked file which is edited right afterwards; a run
+            // follows, then show: a run reads the checkpoint (the stale entry makes the file count as changed), it
+            // does not rewrite it
+            let mut k = 0;
+            let mut i = 0;
+            while i < sc.ops.len() {
+                if matches!(&sc.ops[i], GitOp::CpUpdate { pending: true, .. }) && brng.chance(1, 3) && !sc.dirs.is_empty() {
+                    k += 1;
+                    let p = format!("{}/pend{}.txt", sc.dirs[0], k);
+                    sc.ops.insert(i, GitOp::Create { path: p.clone() });
+                    sc.ops.insert(i + 2, GitOp::Edit { path: p });
+                    sc.ops.insert(i + 3, GitOp::Run);
+                    sc.ops.insert(i + 4, GitOp::CpShow);
+                    i += 5;
+                } else {
+                    i += 1;
+                }
+            }
             // one `out delete --all` in four meets removals that fail
             for op in sc.ops.iter_mut() {
                 if matches!(op, GitOp::OutDelete) && brng.chance(1, 4) {
